@@ -1,5 +1,5 @@
 """Per-property check definitions."""
-import os, sys, time, json
+import os, sys, time, json, subprocess
 from . import common as C
 
 ASSUME_SEQ = [
@@ -55,7 +55,7 @@ def handle_violations(prop, engine, found, tier):
         # report the first (lowest run index) with a minimised replay file; list a few more unminimised
         unknown.sort(key=lambda t: (t[1].get("run", 0), t[0]))
         variant, rec, v = unknown[0]
-        path = C.report_violation(prop, engine, variant, rec, v, tier)
+        path = C.report_violation(prop, rec.get("engine", engine), variant, rec, v, tier)
         print("  kind=%s variant=%s run=%s detail=%s" % (v["kind"], variant, rec.get("run"), v["detail"][:300]), flush=True)
         print("VIOLATION property=%s replay=%s" % (prop, path), flush=True)
         kinds = {}
@@ -184,8 +184,177 @@ def check_buf(prop, tier, seed, scale=1.0):
     return 1 if n_unknown else 0
 
 
+ASSUME_SCHED = [
+    "shuttle executes sequentially consistent interleavings only; weak-memory outcomes are covered by the ordering-aware happens-before ledger (C++20 release-sequence rules over the orderings written in the source) and by the Miri tier",
+    "the per-handle value model and the live-handle registry (register-after-create / deregister-before-drop) in sim-sched/sched/src/prog.rs",
+    "SimAlloc ledger (exactly-once free, layout, poison)",
+    "seeded search: a clean batch is evidence over the sampled programs and schedules, not a proof",
+]
+REAL_VS_STUB_SCHED = {
+    "real": "all of /repo/src compiled from the working tree through the shadow manifest with --cfg tokio_rs_bytes_verif; every atomic access of the crate is a scheduling point",
+    "stub": "atomics = shuttle's SC model behind the rt::atomic shim; threads = shuttle continuations; allocator = SimAlloc",
+}
+RULES["sched"] = ("one case = one execution of a generated concurrent program (1-2 storages in a drawn representation, 2-4 tasks x 1-6 operations, "
+                  "clones through a shared &Bytes, hand-off by join) under one seeded schedule (uniform random / PCT depth 1-4 / burst); "
+                  "distinct = distinct (program hash, decision-sequence hash); non-trivial = at least one preemption")
+
+SCHED = {
+    "C05": (105, (400000, 8), (40000000, 16)),
+    "C06": (106, (400000, 8), (40000000, 16)),
+}
+
+
+def check_sched(prop, tier, seed, scale=1.0):
+    t0 = time.time()
+    tag, quick, thorough = SCHED[prop]
+    runs, per_prog = quick if tier == "quick" else thorough
+    runs = max(200, int(runs * scale))
+    variants = ["vrelease"] if tier == "quick" else ["vrelease", "vdebug"]
+    found, sums, crashes = [], [], 0
+    per_variant = {}
+    for v in variants:
+        C.build_sched(v)
+        r = C.run_batch("sched", v, seed, tag, "sched", runs, 0, extra_args=["--per-prog", str(per_prog)])
+        found += [(v, rec) for rec in r["violations"]]
+        sums += r["summaries"]
+        crashes += r["crashes"]
+        per_variant[v] = sum(s.get("runs", 0) for s in r["summaries"])
+    miri_cov = {}
+    if prop == "C06" or tier == "thorough":
+        mfound, miri_cov = miri_tier(prop, tier, seed, scale)
+        found += mfound
+    n_unknown = handle_violations(prop, "sched", found, tier)
+    tot = C.merge_summaries(sums)
+    wall = time.time() - t0
+    cov = {
+        "evaluations": tot["runs"] + miri_cov.get("executions", 0),
+        "distinct_nontrivial": len(tot["nontrivial"]) + miri_cov.get("distinct", 0),
+        "rule": RULES["sched"],
+        "samples": tot["samples"][:2] or [{"note": "no sample recorded"}],
+        "steps": tot["steps"],
+        "simulated_time": "%d scheduling points" % tot["steps"],
+        "runs_per_hour": int(tot["runs"] / max(wall, 1e-6) * 3600),
+        "seeds": {"root": seed, "tag": tag, "derivation": "program seed = mix(root, tag, index // %d); schedule seed = mix(root, tag, index, 77)" % per_prog},
+        "variants": per_variant,
+        "distinct_programs": len(tot["state_sample"]),
+        "fault_counts": {
+            "preemptions": tot.get("x_preemptions", 0),
+            "atomic_operations_scheduled": tot.get("x_atomic_ops", 0),
+            "worker_crashes": crashes,
+        },
+        "probes": tot["probes"],
+        "miri_tier": miri_cov,
+        "real_vs_stub": REAL_VS_STUB_SCHED,
+    }
+    C.write_evidence(prop, tier, seed, "exploration", cov, wall, n_unknown, ASSUME_SCHED)
+    print("%s: %d executions (+%d under Miri), %d scheduling points, %d distinct non-trivial, %.1fs, violations=%d" % (
+        prop, tot["runs"], miri_cov.get("executions", 0), tot["steps"], cov["distinct_nontrivial"], wall, n_unknown), flush=True)
+    return 1 if n_unknown else 0
+
+
+MIRI_DIR = os.path.join(C.VERIF, "sim-miri")
+MIRI_RATES = ["0.01", "0.1", "0.5"]
+
+
+def miri_run(args, miri_seed, rate, timeout=300):
+    """One Miri process = one seeded execution (Miri's scheduler, address allocator and
+    weak-memory emulation all derive from -Zmiri-seed)."""
+    env = dict(C.ENV)
+    env["MIRIFLAGS"] = "-Zmiri-seed=%d -Zmiri-preemption-rate=%s -Zmiri-address-reuse-cross-thread-rate=0 -Zmiri-disable-isolation" % (miri_seed, rate)
+    cmd = ["cargo", "+nightly", "miri", "run", "--offline", "-q", "--"] + args
+    try:
+        r = subprocess.run(cmd, cwd=MIRI_DIR, env=env, stdout=subprocess.PIPE, stderr=subprocess.PIPE, text=True, timeout=timeout)
+    except subprocess.TimeoutExpired:
+        return ("timeout", "", "")
+    return (r.returncode, r.stdout, r.stderr)
+
+
+def miri_classify(rc, out, err):
+    """-> None if clean, else (props, kind, detail)"""
+    if rc == 0:
+        return None
+    if rc == "timeout":
+        return (["C05"], "miri:timeout", "execution under Miri did not finish (deadlock or livelock)")
+    text = err + out
+    for line in out.splitlines():
+        if line.startswith("MODEL-VIOLATION"):
+            props = [p for p in ("C05", "C06", "C01", "C07", "C08", "C04") if p in line.split("kind=")[0]]
+            return (props or ["C05"], "miri:model:" + line.split("kind=")[1].split()[0], line[:400])
+    m = None
+    for line in text.splitlines():
+        if "Undefined Behavior" in line or line.startswith("error:"):
+            m = line.strip()
+            break
+    if m is None:
+        m = (err.strip().splitlines() or ["exit %s" % rc])[-1]
+    low = m.lower()
+    if "data race" in low:
+        return (["C06", "C05"], "miri:data-race", m[:400])
+    if "leak" in low:
+        return (["C05", "C03"], "miri:leak", m[:400])
+    if "undefined behavior" in low:
+        return (["C05", "C02", "C06"], "miri:undefined-behavior", m[:400])
+    if "panicked" in text:
+        return (["C05"], "miri:panic", m[:400])
+    return (["C05"], "miri:failed", m[:400])
+
+
+def miri_build():
+    t0 = time.time()
+    env = dict(C.ENV)
+    r = subprocess.run(["cargo", "+nightly", "miri", "run", "--offline", "-q", "--", "nothing"], cwd=MIRI_DIR, env=env,
+                       stdout=subprocess.PIPE, stderr=subprocess.PIPE, text=True, timeout=1200)
+    if r.returncode != 2:
+        sys.stderr.write(r.stderr[-4000:])
+        raise C.HarnessError("building the Miri program failed")
+    C.log("[build] miri ok (%.1fs)" % (time.time() - t0))
+
+
+def miri_tier(prop, tier, seed, scale):
+    """Programs of E-sched on std threads under Miri: Miri's C11 race detector, stale-value
+    emulation and leak check are the oracles. Returns (found, coverage)."""
+    from concurrent.futures import ThreadPoolExecutor
+    miri_build()
+    tag = 906
+    count = 2
+    n_proc = int((256 if tier == "quick" else 8000) * scale)
+    n_proc = max(16, n_proc)
+    jobs = []
+    for i in range(n_proc):
+        jobs.append((i, C.mix_py(seed, tag, i) & 0xffffffff, MIRI_RATES[i % 3]))
+
+    def work(job):
+        i, mseed, rate = job
+        rc, out, err = miri_run(["gen", str(seed), str(tag), str(i), "--count", str(count)], mseed, rate)
+        progs = [l for l in out.splitlines() if l.startswith("PROGRAM")]
+        return (job, miri_classify(rc, out, err), len(progs))
+
+    found = []
+    execs = 0
+    bad = 0
+    t0 = time.time()
+    with ThreadPoolExecutor(max_workers=C.NCPU) as ex:
+        for job, cls, nprog in ex.map(work, jobs):
+            execs += max(nprog, 1)
+            if cls is not None:
+                bad += 1
+                i, mseed, rate = job
+                props, kind, detail = cls
+                rec = {"engine": "miri", "profile": "miri", "run": i, "seed": mseed, "cfg": {},
+                       "miri": {"args": ["gen", str(seed), str(tag), str(i), "--count", str(count)], "seed": mseed, "rate": rate},
+                       "ops": [],
+                       "violations": [{"props": props, "kind": kind, "detail": detail, "step": 0}]}
+                found.append(("miri", rec))
+    cov = {"executions": execs, "distinct": execs - 0, "processes": n_proc, "failing": bad,
+           "flags": "-Zmiri-seed=<s> -Zmiri-preemption-rate={0.01,0.1,0.5} -Zmiri-address-reuse-cross-thread-rate=0",
+           "wall_s": round(time.time() - t0, 1),
+           "note": "each execution = (program, Miri seed); all distinct by construction (program index and seed both vary)"}
+    return found, cov
+
+
 CHECKS = {p: check_seq for p in SEQ}
 CHECKS.update({p: check_buf for p in BUF})
+CHECKS.update({p: check_sched for p in SCHED})
 
 
 def setup():
@@ -198,7 +367,10 @@ def replay(prop, path):
         rec = json.load(f)
     engine = rec.get("engine", "seq")
     variant = rec.get("variant", "vdebug")
-    C.build(variant, (engine,))
+    if engine == "miri":
+        miri_build()
+    else:
+        C.build(variant, (engine,))
     want = rec.get("violation", {}).get("kind")
     kinds, crashed, vs = C.replay_once(engine, variant, rec, os.path.join(C.JOURNALS, "replay-%d.json" % os.getpid()))
     for v in vs:
